@@ -290,6 +290,10 @@ func c07Eval(g c07Graph) *Case {
 func runC07(r *Run, replay *Case) {
 	gs := c07Graphs(r.Thorough() || replay != nil)
 	if replay != nil {
+		if replay.Input["op"] == "history" {
+			c07History(r)
+			return
+		}
 		if replay.Input["op"] == "layoutdata" {
 			c07DataReplay(r, replay)
 			return
@@ -308,4 +312,5 @@ func runC07(r *Run, replay *Case) {
 		r.Add(c07Eval(g))
 	}
 	c07DataStream(r)
+	c07History(r)
 }
